@@ -150,5 +150,20 @@ def run(tier):
         ok = any(d[0] == "call" and d[1] == "std::iter::Iterator::max" for d in o)
     rep.ob("runtime.highest-pattern-id-wins", "Matcher::next: Token index <- %s" % ("Iterator::max" if ok else "?"), ok and bool(toks),
            "the token index is not the maximum pattern id of the match state", key="runtime-max", file=nx.relfile(), line=nx.line, fn=nx.path)
+    # every input byte is consumed through a DFA match: the text handed to the DFA is self.text itself and token spans are
+    # (consumed, consumed + L) -- no pre-scan that skips or trims input outside the pattern set
+    by = [(bi, t) for bi, t in nx.calls() if (callee_of(t) or "").endswith("str::<impl str>::bytes")]
+    okb = len(by) == 1 and origins(nx, by[0][1]["args"][0], transparent=lambda c: None) == {("arg", 1, ("text",))}
+    rep.ob("runtime.dfa-sees-the-whole-remaining-text", "Matcher::next: dfa input <- %s" % (sorted(origins(nx, by[0][1]["args"][0], transparent=lambda c: None)) if by else "?"), okb,
+           "the text walked through the DFA is not self.text itself (some input is consumed outside the longest-match rule)",
+           key="runtime-prescan", file=nx.relfile(), line=nx.line, fn=nx.path)
+    for bi, si, s2 in nx.stmts():
+        if s2["k"] == "assign" and s2["r"]["k"] == "agg" and s2["r"]["ak"] == "tuple" and len(s2["r"]["ops"]) == 3:
+            o0 = origins(nx, s2["r"]["ops"][0], transparent=lambda c: None)
+            mid = origins(nx, s2["r"]["ops"][1], transparent=lambda c: None)
+            if not any(d[0] == "agg" for d in mid):
+                continue
+            rep.ob("runtime.token-start-is-consumed-offset", "Matcher::next: span start <- %s" % sorted(o0), o0 == {("arg", 1, ("consumed",))},
+                   "the start of a token span is not the offset consumed so far", key="runtime-span-start", file=nx.relfile(), line=s2["ln"], fn=nx.path)
     sk = [s for _, _, s in nx.stmts() if s["k"] == "assign" and any(e[0] == "index" for e in (s["r"].get("o", {}).get("p", {}) or {}).get("pr", []))]
     return rep
